@@ -24,6 +24,7 @@ import (
 	"go.uber.org/zap"
 
 	"pdverif/internal/coqfmt"
+	"pdverif/internal/kvx13"
 	"pdverif/internal/res"
 	"pdverif/internal/rng"
 	"pdverif/internal/srv14"
@@ -75,6 +76,12 @@ type caseJ struct {
 	// scheduler evaluates for a candidate move) are requested by two goroutines while the lock is held, so
 	// that both calls are inside RuleManager.FitRegion at the same time; each must get the fit of ITS region
 	Overlap bool `json:"overlap,omitempty"`
+	// manager stream: after the rules are installed, rule g/r0 is deleted (FaultOp 1) or the whole group g
+	// is (FaultOp 2) while the FaultAt-th storage write of that operation fails (not applied). Whatever the
+	// manager answers, a second manager started on the same storage must then hand the region the same rules
+	// as the first one does when the operation was acknowledged: two PDs fit one region against one rule list
+	FaultOp int `json:"fault_op,omitempty"`
+	FaultAt int `json:"fault_at,omitempty"`
 	// cluster stream: the stores live in the RaftCluster of a real pd server. Puts is the history of
 	// the stores (RaftCluster.PutStore = a store (re)joining with labels, merged into the ones it has, an
 	// empty value drops the label; RaftCluster.UpdateStoreLabels with force = `store label --force`);
@@ -534,6 +541,9 @@ func genManager(r *rng.R) caseJ {
 	}
 	c.Stream, c.Manager, c.Install, c.Rules = "manager", true, c.Rules, nil
 	c.DropDefault = r.Pct(60)
+	if r.Pct(40) { // a storage failure while rules are being deleted
+		c.FaultOp, c.FaultAt = 1+r.Intn(2), 1+r.Pick(60, 25, 15)
+	}
 	return c
 }
 
@@ -612,7 +622,11 @@ type outcome struct {
 }
 
 // managerSetup installs the case into a real RuleManager / BasicCluster and reads the served rules back.
+// set by managerSetup when the fault phase of a case finds two managers disagreeing; reported by run
+var faultViolation string
+
 func managerSetup(c *caseJ) (*placement.RuleManager, *core.BasicCluster) {
+	faultViolation = ""
 	bc := core.NewBasicCluster()
 	seen := map[uint64]bool{}
 	for _, s := range c.Stores {
@@ -626,7 +640,9 @@ func managerSetup(c *caseJ) (*placement.RuleManager, *core.BasicCluster) {
 		}
 		bc.PutStore(core.NewStoreInfo(&metapb.Store{Id: s.ID, Labels: ls, State: metapb.StoreState(s.State)}))
 	}
-	m := placement.NewRuleManager(core.NewStorage(kv.NewMemoryKV()), nil)
+	fkv := kvx13.NewOn(kv.NewMemoryKV())
+	storage := core.NewStorage(fkv)
+	m := placement.NewRuleManager(storage, nil)
 	if err := m.Initialize(3, []string{"zone", "host"}); err != nil {
 		panic(err)
 	}
@@ -637,6 +653,28 @@ func managerSetup(c *caseJ) (*placement.RuleManager, *core.BasicCluster) {
 	}
 	if c.DropDefault {
 		_ = m.DeleteRule("pd", "default") // rejected when nothing valid would be left
+	}
+	if c.FaultOp != 0 {
+		fkv.Plan(c.FaultAt, kvx13.FailBefore)
+		var err error
+		if c.FaultOp == 1 {
+			err = m.DeleteRule("g", "r0")
+		} else {
+			err = m.DeleteGroupBundle("g", false)
+		}
+		writes := fkv.Take()
+		rulesJSON := func(x *placement.RuleManager) string {
+			b, _ := json.Marshal(x.GetRulesForApplyRegion(mkRegion(c.A)))
+			return string(b)
+		}
+		m2 := placement.NewRuleManager(storage, nil)
+		if err != nil {
+			// refused or failed and said so: the client retries; nothing is promised about the storage meanwhile (C13)
+		} else if err2 := m2.Initialize(3, []string{"zone", "host"}); err2 != nil {
+			faultViolation = fmt.Sprintf("after %s with write %d of %d failing (answer: %v) a second manager cannot start on the storage: %v", []string{"", "DeleteRule(g,r0)", "DeleteGroupBundle(g)"}[c.FaultOp], c.FaultAt, len(writes), err, err2)
+		} else if a, b := rulesJSON(m), rulesJSON(m2); a != b {
+			faultViolation = fmt.Sprintf("after %s with write %d of %d failing (answer: %v) the manager fits the region against %s, a second manager on the same storage against %s", []string{"", "DeleteRule(g,r0)", "DeleteGroupBundle(g)"}[c.FaultOp], c.FaultAt, len(writes), err, a, b)
+		}
 	}
 	c.Rules = nil
 	for _, pr := range m.GetRulesForApplyRegion(mkRegion(c.A)) {
@@ -755,6 +793,9 @@ func run(R *res.Result, c *caseJ) outcome {
 	var bc *core.BasicCluster
 	if c.Manager {
 		mgr, bc = managerSetup(c)
+		if faultViolation != "" {
+			R.Violate("C12:two-managers-fit-against-different-rules", faultViolation, c)
+		}
 	}
 	var rc *cluster.RaftCluster
 	if c.Cluster {
